@@ -318,6 +318,30 @@ def auth_part(ctx, binary):
             agg.setdefault("auth-%s-pw-%s" % (kind, case["via"]), []).append((
                 "%s: the token PasswordAuthenticator.Challenge returned for user %s, re-read after ANOTHER authenticator's Challenge "
                 "ran (%s), is %s" % (kind, case["user"], case["via"], _key(ev)[:300]), dict(case=case, event=ev)))
+    # an AuthProvider with one authenticator PER HOST, two contact points demanding each other's approved class
+    pp = os.path.join(ctx.tmp, "auth_perhost.ndjson")
+    rc, pout = vf.run_gotest(ctx, binary, "^TestVfC20PerHost$", env={"VF_C20_PERHOST": pp}, timeout=300)
+    pm = re.search(r"^VFSUMMARY (.*)$", pout, re.M)
+    if not pm or "--- PASS" not in pout:
+        raise vf.Inconclusive("per-host provider driver failed:\n" + pout[-2000:])
+    perhost = vf.read_ndjson(pp)
+    tp2 = vf.run_tlc(ctx, "Trace_Auth", "Trace_Auth.cfg", workers=1, timeout=600, deadlock=False, env={"VF_TRACE": pp}, name="auth_perhost")
+    if not tp2.ok or tp2.distinct != len(perhost) + 1:
+        raise vf.Inconclusive("Trace_Auth failed on the per-host provider sessions: %s\n%s" % (tp2.error or tp2.violated, tp2.out[-2000:]))
+    ph = json.loads(pm.group(1))
+    if ph["auth_responses"] == 0:
+        raise vf.Inconclusive("the per-host provider sessions' control rounds sent no AUTH_RESPONSE: %s" % ph)
+    for mv in vf.tlc_printed(tp2.out, "MONVIOL"):
+        ev = perhost[mv["line"] - 1]
+        case = next(e for e in perhost if e["id"] == mv["id"] and e["ev"] == "case")
+        for kind in mv["kinds"]:
+            if kind.startswith("drift-"):
+                continue
+            nviol += 1
+            agg.setdefault("auth-%s-pw-%s" % (kind, case["via"]), []).append((
+                "%s: AuthProvider returning one PasswordAuthenticator per host (this host's approves %s only): %s" % (
+                    kind, case["allowed"], _key(ev)[:300]), dict(case=case, event=ev)))
+    ctx.notes.append("per-host AuthProvider: %d two-contact-point sessions, %d AUTH_RESPONSE frames judged by Trace_Auth" % (ph["sessions"], ph["auth_responses"]))
     _flush(ctx, agg)
     _probe_auth(ctx, ordered, {mv["id"] for mv in mon})
     # replay comparison with the machine's outcome (outside the property: drift), and the known crash
